@@ -13,7 +13,9 @@ LEVEL_TEXT = (
     "shape domain (patterns of runs of ordinary / non-ASCII / each whitespace byte / NUL, with length scenarios around "
     "the 250-byte boundary measured in characters, encoded bytes and prefixed bytes) and compared, for every abstract "
     "input, with the specified predicate, the required exception type and the required return value. The three client "
-    "classes are shown to apply this one function with their own prefix and unicode setting."
+    "classes are shown to apply this one function with their own prefix and unicode setting, with no switches, and R6 "
+    "interprets every key-addressed Client method end to end with an illegal key at each position of its batch: the "
+    "only outcome is MemcacheIllegalInputError, with and without ignore_exc, before anything is sent."
 )
 TRUSTED = ["CPython ast", "pmcsa/keyeval.py transformers (semantics of bytes.split, str.encode for ascii/utf8, len, `in`)", "re._parser for character classes when a regex is used"]
 
